@@ -299,6 +299,20 @@ func allInputs() []Input {
 	add("map:a=3,b=1", `(sorted-map "a" 3 "b" 1)`, vMap(sk("a"), vInt(3), sk("b"), vInt(1)))
 	add("map:a=3,b=3", `(sorted-map "a" 3 "b" 3)`, vMap(sk("a"), vInt(3), sk("b"), vInt(3)))
 	add("map:a=-1", `(sorted-map "a" -1)`, vMap(sk("a"), vInt(-1)))
+	// for each declared key: ABSENT, bound to nil, false, "", 0, and a
+	// satisfying / violating value of the other key
+	add("map:b=2", `(sorted-map "b" 2)`, vMap(sk("b"), vInt(2)))
+	add("map:b=false", `(sorted-map "b" false)`, vMap(sk("b"), vSym("false")))
+	add("map:b=true", `(sorted-map "b" true)`, vMap(sk("b"), vSym("true")))
+	add("map:b=nil", `(sorted-map "b" ())`, vMap(sk("b"), vNil()))
+	add("map:a=nil,b=1", `(sorted-map "a" () "b" 1)`, vMap(sk("a"), vNil(), sk("b"), vInt(1)))
+	add("map:a=nil,b=2", `(sorted-map "a" () "b" 2)`, vMap(sk("a"), vNil(), sk("b"), vInt(2)))
+	add("map:a=nil,b=false", `(sorted-map "a" () "b" false)`, vMap(sk("a"), vNil(), sk("b"), vSym("false")))
+	add("map:a=false,b=1", `(sorted-map "a" false "b" 1)`, vMap(sk("a"), vSym("false"), sk("b"), vInt(1)))
+	add("map:a=empty-str,b=1", `(sorted-map "a" "" "b" 1)`, vMap(sk("a"), vStr(""), sk("b"), vInt(1)))
+	add("map:a=0,b=1", `(sorted-map "a" 0 "b" 1)`, vMap(sk("a"), vInt(0), sk("b"), vInt(1)))
+	add("map:a=0", `(sorted-map "a" 0)`, vMap(sk("a"), vInt(0)))
+	add("map:a=false", `(sorted-map "a" false)`, vMap(sk("a"), vSym("false")))
 
 	// the same maps symbol-keyed
 	symTwin := func(name, src string, v *Val, twin string) {
@@ -310,6 +324,9 @@ func allInputs() []Input {
 	symTwin("symmap:a=1,b=2", `(sorted-map 'a 1 'b 2)`, vMap(ym("a"), vInt(1), ym("b"), vInt(2)), "map:a=1,b=2")
 	symTwin("symmap:a=1,c=3", `(sorted-map 'a 1 'c 3)`, vMap(ym("a"), vInt(1), ym("c"), vInt(3)), "map:a=1,c=3")
 	symTwin("symmap:b=1", `(sorted-map 'b 1)`, vMap(ym("b"), vInt(1)), "map:b=1")
+	symTwin("symmap:b=2", `(sorted-map 'b 2)`, vMap(ym("b"), vInt(2)), "map:b=2")
+	symTwin("symmap:b=false", `(sorted-map 'b false)`, vMap(ym("b"), vSym("false")), "map:b=false")
+	symTwin("symmap:a=nil,b=1", `(sorted-map 'a () 'b 1)`, vMap(ym("a"), vNil(), ym("b"), vInt(1)), "map:a=nil,b=1")
 
 	// JSON-decoded documents and their lisp-built twins (json numbers decode
 	// as floats: docs/lang.md "JSON numbers and integer precision").
@@ -332,6 +349,14 @@ func allInputs() []Input {
 		{"a=map", `{"a":{"a":1}}`, `(sorted-map "a" (sorted-map "a" 1.0))`, vMap(sk("a"), vMap(sk("a"), fl(1)))},
 		{"a=arr", `{"a":[1]}`, `(sorted-map "a" (vector 1.0))`, vMap(sk("a"), vArr(fl(1)))},
 		{"a=null", `{"a":null}`, `(sorted-map "a" ())`, vMap(sk("a"), vNil())},
+		{"b=2", `{"b":2}`, `(sorted-map "b" 2.0)`, vMap(sk("b"), fl(2))},
+		{"b=false", `{"b":false}`, `(sorted-map "b" false)`, vMap(sk("b"), vSym("false"))},
+		{"b=null", `{"b":null}`, `(sorted-map "b" ())`, vMap(sk("b"), vNil())},
+		{"a=null,b=1", `{"a":null,"b":1}`, `(sorted-map "a" () "b" 1.0)`, vMap(sk("a"), vNil(), sk("b"), fl(1))},
+		{"a=null,b=false", `{"a":null,"b":false}`, `(sorted-map "a" () "b" false)`, vMap(sk("a"), vNil(), sk("b"), vSym("false"))},
+		{"a=false,b=1", `{"a":false,"b":1}`, `(sorted-map "a" false "b" 1.0)`, vMap(sk("a"), vSym("false"), sk("b"), fl(1))},
+		{"a=empty-str,b=1", `{"a":"","b":1}`, `(sorted-map "a" "" "b" 1.0)`, vMap(sk("a"), vStr(""), sk("b"), fl(1))},
+		{"a=0,b=1", `{"a":0,"b":1}`, `(sorted-map "a" 0.0 "b" 1.0)`, vMap(sk("a"), fl(0), sk("b"), fl(1))},
 		{"[1]", `[1]`, `(vector 1.0)`, vArr(fl(1))},
 		{"[]", `[]`, `(vector)`, vArr()},
 		{"[map]", `[{"a":1}]`, `(vector (sorted-map "a" 1.0))`, vArr(vMap(sk("a"), fl(1)))},
